@@ -3,7 +3,7 @@ import Nv.Model.C14
 import Nv.Gen.C14
 /-!
 oracle_c14 — line protocol (one executor at a time; every op is followed by the quiescent closure):
-  `new <line|mline|runner|pchan> <lanes> <cap>`  → `ok`          (lanes > 1 only for mline)
+  `new <line|mline|runner|runner-call|runner-delegate|runner-proc|pchan> <lanes> <cap>`  → `ok`   (lanes > 1 only for mline)
   `call <id> <hash>`      id = number of calls so far; submit with a fresh cancellable context
   `fin <id> <ok|err> <v>` the running callee of call id returns                (`not-running` otherwise)
   `cancel <id>`           cancel the context of call id
@@ -67,7 +67,10 @@ def applyAll (xs : List Exec) (acts : Exec → List XAct) (dflt : String) : List
   (states, out)
 
 def parseKind : String → Option Kind
-  | "line" => some .line | "mline" => some .mline | "runner" => some .runner | "pchan" => some .pchan | _ => none
+  | "line" => some .line | "mline" => some .mline | "runner" => some .runner | "pchan" => some .pchan
+  -- the three context kinds of RunnerQ are one model kind; `runner` alternates them by call id
+  | "runner-call" => some .runner | "runner-delegate" => some .runner | "runner-proc" => some .runner
+  | _ => none
 
 def step (st : St) (line : String) : St × String :=
   match words line with
